@@ -262,3 +262,12 @@ func VerifSetReservationWaitTimeout(d time.Duration) time.Duration {
 	reservationWaitTimeout = d
 	return old
 }
+
+// VerifSetUsage sets the pending and allocated resources the queue sort policies read, leaving the priority bookkeeping
+// (currentPriority, appPriorities, childPriorities) as the real update path left it.
+func (sq *Queue) VerifSetUsage(pending, allocated *resources.Resource) {
+	sq.Lock()
+	defer sq.Unlock()
+	sq.pending = pending
+	sq.allocatedResource = allocated
+}
